@@ -201,10 +201,13 @@ type storedResult struct {
 
 func replayStored(def PropertyDef, rep *Report, repo string, extra map[string]any) {
 	verif := verifDir
+	// what the unchanged tree itself reports (known findings, or a violation the check fails on anyway) is
+	// not what a replayed change is judged by: only reports beyond these count
 	baseClean := true
+	baseKeys := map[string]bool{}
 	for _, o := range rep.Obs {
 		if o.Verdict == Violated || o.Verdict == Undecided {
-			baseClean = false
+			baseKeys[o.Rule+"@"+o.Key] = true
 		}
 	}
 	// seeded changes of this property
@@ -236,7 +239,7 @@ func replayStored(def PropertyDef, rep *Report, repo string, extra map[string]an
 		r2 := runRules(def, c2)
 		hit := ""
 		for _, o := range r2.Obs {
-			if o.Verdict == Violated || o.Verdict == Undecided {
+			if (o.Verdict == Violated || o.Verdict == Undecided) && !baseKeys[o.Rule+"@"+o.Key] {
 				hit = o.Rule + "@" + o.Key
 				break
 			}
@@ -282,7 +285,7 @@ func replayStored(def PropertyDef, rep *Report, repo string, extra map[string]an
 			nb++
 			hit := ""
 			for _, o := range r2.Obs {
-				if o.Verdict == Violated || o.Verdict == Undecided {
+				if (o.Verdict == Violated || o.Verdict == Undecided) && !baseKeys[o.Rule+"@"+o.Key] {
 					hit = o.Rule + "@" + o.Key + ": " + o.Detail
 					break
 				}
